@@ -3,6 +3,7 @@ package props
 import (
 	"math/rand"
 	"fmt"
+	"sort"
 	"strings"
 
 	"verifharness/adapt"
@@ -187,6 +188,9 @@ func (p *c03) RunCase(ctx *runner.Ctx) runner.CaseResult {
 	idx := ctx.Case - blocks*2
 	r := mon.Rng(ctx.Seed, "C03", idx)
 	adapter := adapt.Adapters[idx%2]
+	if idx < 2 {
+		p.legacyUpdates(x, adapter, ctx)
+	}
 	late := idx%3 == 0 // indexes created late on a non-empty table
 	if idx%4 == 1 {
 		// typed keys: number / binary sort key and index keys (see useTypedPools)
@@ -326,4 +330,85 @@ func (p *c03) RunCase(ctx *runner.Ctx) runner.CaseResult {
 		x.r.Sample = map[string]interface{}{"kind": "seeded", "adapter": adapter, "late_indexes": late, "ops": shape}
 	}
 	return x.r
+}
+
+// legacyUpdates: UpdateItem requests that carry no UpdateExpression but the legacy AttributeUpdates parameter
+// (PUT / ADD / DELETE per attribute - what older code and several object mappers send). The library may refuse them
+// (it documents the legacy parameters as not supported; listed finding of C01) - but if it performs one, the write is
+// a write like any other: every index mirrors the base table afterwards. Judged without the reference model, from the
+// base table itself: an index holds exactly the base items that have all of its key attributes.
+func (p *c03) legacyUpdates(x *res, adapter string, ctx *runner.Ctx) {
+	spec := ixSpec("tbl03l", true)
+	sv := func(s string) *val.V { v := val.Str(s); return &v }
+	one := val.Num("1")
+	requests := []map[string]adapt.AttrUpdate{
+		{"g": {Action: "PUT", Value: sv("gx")}},
+		{"g": {Action: "DELETE"}},
+		{"s": {Action: "PUT", Value: sv("sy")}},
+		{"g": {Action: "PUT", Value: sv("g2")}, "s": {Action: "PUT", Value: sv("s2")}},
+		{"g": {Action: "DELETE"}, "s": {Action: "DELETE"}},
+		{"v": {Action: "ADD", Value: &one}},
+		{"g": {Action: "PUT", Value: sv("gx")}, "v": {Action: "PUT", Value: sv("w")}},
+	}
+	states := map[string]val.Item{"absent": nil, "bare": {"h": val.Str("a"), "r": val.Str("1"), "v": val.Num("5")}, "indexed": {"h": val.Str("a"), "r": val.Str("1"), "g": val.Str("g0"), "s": val.Str("s0"), "v": val.Num("5")}}
+	for sname, st := range states {
+		for ri, req := range requests {
+			cl, _, ds := freshClient(adapter, spec)
+			if ds != nil {
+				x.viol("setup", "create", ds[0].Detail, spec)
+				return
+			}
+			cl.Do(adapt.Op{Kind: adapt.OpPut, Table: spec.Name, Item: val.Item{"h": val.Str("b"), "r": val.Str("2"), "g": val.Str("gx"), "s": val.Str("sy")}})
+			if st != nil {
+				cl.Do(adapt.Op{Kind: adapt.OpPut, Table: spec.Name, Item: st})
+			}
+			op := adapt.Op{Kind: adapt.OpUpdate, Table: spec.Name, Key: val.Item{"h": val.Str("a"), "r": val.Str("1")}, NoUpdate: true, AttrUpd: req}
+			ctx.Trace("%s legacy update %d on %s", adapter, ri, sname)
+			got := cl.Do(op)
+			x.r.Evals++
+			x.fp(true, "%s|legacy|%s|%d", adapter, sname, ri)
+			wit := map[string]interface{}{"adapter": adapter, "state": sname, "request": op, "outcome": got}
+			if got.Class == adapt.ClsRuntime {
+				x.viol("runtime-panic", got.Site, fmt.Sprintf("[%s] UpdateItem with AttributeUpdates panics at %s: %s", adapter, got.Site, got.Msg), wit)
+				continue
+			}
+			if got.Class != adapt.ClsOK {
+				x.r.Counters["legacy_updates_refused"]++
+			} else {
+				x.r.Counters["legacy_updates_performed"]++
+			}
+			base := cl.Do(adapt.Op{Kind: adapt.OpScan, Table: spec.Name})
+			desc := cl.Do(adapt.Op{Kind: adapt.OpDescribe, Table: spec.Name})
+			for _, ix := range spec.Indexes {
+				want := []string{}
+				for _, it := range base.Items {
+					_, hasH := it[ix.Hash]
+					_, hasR := it[ix.Range]
+					if hasH && (ix.Range == "" || hasR) {
+						want = append(want, it.Canon())
+					}
+				}
+				sort.Strings(want)
+				sc := cl.Do(adapt.Op{Kind: adapt.OpScan, Table: spec.Name, Index: ix.Name})
+				have := []string{}
+				for _, it := range sc.Items {
+					have = append(have, it.Canon())
+				}
+				sort.Strings(have)
+				x.r.Evals++
+				cnt := int64(-1)
+				if desc.Desc != nil {
+					for _, d := range desc.Desc.Indexes {
+						if d.Name == ix.Name && d.HasCnt {
+							cnt = d.Count
+						}
+					}
+				}
+				if strings.Join(have, "\n") != strings.Join(want, "\n") || (cnt >= 0 && cnt != int64(len(want))) {
+					x.viol("index-stale-after-legacy-update", ix.Name+"/"+sname, fmt.Sprintf("[%s] after UpdateItem with AttributeUpdates %v (answered %s) on the %s item, index %s returns %v and DescribeTable counts %d; the base table holds %v with its key attributes", adapter, req, got.Class, sname, ix.Name, have, cnt, want), wit)
+					break
+				}
+			}
+		}
+	}
 }
